@@ -2,13 +2,33 @@
 SOURCE_COMMITS = []
 NOTES = "All checks are bounded exhaustive explorations driving the real mchap code (see DESIGN.md)."
 ENGINES = [
-    {"name": "K", "path": "vmc/seams.py, vmc/kasm.py, vmc/kcall.py", "serves_properties": ["C01", "C02"],
+    {"name": "K", "path": "vmc/seams.py, vmc/kasm.py, vmc/kcall.py", "serves_properties": ["C01", "C02", "C18"],
      "kind_free_text": "explicit-state Markov-kernel extraction: sampler bodies run as numba py_func with every random seam replaced by an oracle that records the probability vector and forces each answer; DFS over answer sequences"},
-    {"name": "inputs", "path": "vmc/checks", "serves_properties": ["C05"],
+    {"name": "inputs", "path": "vmc/checks", "serves_properties": ["C03", "C04", "C05", "C11", "C17"],
      "kind_free_text": "bounded exhaustive enumeration of inputs/configurations against boring reference models"},
 ]
 _PENDING = "check not built yet in this session (work in progress; see DESIGN.md build order)"
 CHECKS = {
+    "C03": dict(engine="inputs", category="exploration",
+                technique="bounded exhaustive enumeration of (ploidy, haplotype set, frequencies, F, read multiset) and of all report-field subsets against a reference posterior",
+                text="Every case in the bound is evaluated on both the streaming (posterior_mode) and full-array (genotype_likelihoods/posteriors) paths and on call_exact.program.call_sample_genotypes for every subset of optional report fields; GT/GPM/SPM/AFP/ACP/AOP/GP/GL are compared with an independent normalised likelihood x prior in VCF order.",
+                note="Trusted: refmodel posterior; float32 tolerance for the GL path; exact ties accept any maximiser."),
+    "C04": dict(engine="inputs", category="exploration",
+                technique="bounded exhaustive enumeration of read multisets over a per-site alphabet x genotypes x rearrangement index vectors x intervals",
+                text="All read sets (<=2 reads quick) over an alphabet with gaps, confident/flat/non-listed calls, all genotypes and all P^P rearrangement vectors x intervals: jitted and py_func likelihoods equal the literal mixture formula, are order-invariant, treat counts as copies, and the structural-change likelihood equals the likelihood of the rearranged genotype; all cached/calling/pedigree wrappers agree.",
+                note="Trusted: refmodel.llk."),
+    "C11": dict(engine="inputs", category="exploration",
+                technique="exhaustive enumeration of all genotypes per (ploidy, alleles) against sorted reference order; walker as one-operation state machine; binomial grid + 2^53 frontier windows",
+                text="For all (P<=8,H<=12,N<=1e5) every genotype: index map == position in the VCF-spec order, inverse, bijection onto 0..N-1, increment_genotype walks that order; comb/comb_with_replacement/count_unique_genotypes vs math.comb on n<200,k<20 and along the N<2^53 frontier for all k<=80.",
+                note="Trusted: math.comb, itertools."),
+    "C17": dict(engine="inputs", category="exploration",
+                technique="exhaustive enumeration of small trios/duos/founders against brute-force inheritance; dosage walker state machine",
+                text="All parent genotype pairs over 3 alleles, ploidy {2,4} or unknown, all tau pairs incl. 0/unbalanced, lambda, all error pairs from a grid, two frequency vectors x all progeny genotypes: trio_log_pmf equals brute-force inheritance and sums to one; positive <=> trio_valid/duo_valid at zero error; gamete pmf sums to one; increment_dosage visits every constrained dosage once.",
+                note="Trusted: refmodel.trio_pmf (enumeration of gametes)."),
+    "C18": dict(engine="K", category="model_checking",
+                technique="exhaustive joint-state x individual x slot enumeration of Gibbs/MH vectors vs brute-force joint; exchange step extracted with owned randint/uniform seams on every slot pair and decision",
+                text="Every joint state of 17 small pedigree shapes (incl. unbalanced tau, clonal, selfing, lambda, mixed ploidy, multi-generation, edge-specific errors): Gibbs == exact full conditional, MH and parental exchange satisfy detailed balance w.r.t. the reference joint, exchange effect/rollback, parental pairs/blankets, cache contents; the compiled exchange step lands on a model edge.",
+                note="Trusted: refmodel joint (likelihood x brute-force inheritance)."),
     "C01": dict(engine="K", category="model_checking",
                 technique="explicit-state extraction of the exact Markov kernel of every elementary move (random seam owned, every answer forced) + invariants on every state/edge; exhaustive answer-sequence enumeration of the orchestration loop",
                 text="For every instance in the bound, all unordered genotypes in all row orders are fed to the real base_step / interval_step / chain_swap_step bodies; the exact transition rows are read off the seam and detailed balance w.r.t. an independent reference posterior, order-invariance, proposal de-duplication, returned likelihood, exchange acceptance and irreducibility are decided on every state and edge. The orchestration loop is run against recording stubs for every gate/swap answer sequence and compared with a reference loop. A proposal-ratio error shows as a violated edge, not as drift inside a statistical tolerance.",
